@@ -805,7 +805,7 @@ fn compute_must(sim: &Sim) {
             }
             K::Sig(k) => {
                 k.pending_at_wait = k.pending;
-                if (0..4).any(|i| k.pending[i] && k.configured.contains(&(i as u8))) {
+                if (0..crate::sig::N_SIG).any(|i| k.pending[i] && k.configured.contains(&(i as u8))) {
                     must.insert(*id, Must::Callback);
                 }
             }
